@@ -56,7 +56,7 @@ def run(ctx):
     ctx.audit(THEOREMS, LEAN_FILES)
     quick = ctx.tier == "quick"
     rng = ctx.rng
-    n = 1500 if quick else 40000
+    n = 1500 if quick else 12000
     # ---- (a)+(c) valid and corrupted documents: model vs code on the fatal classes; accepted ones are run
     docs, kinds = [], []
     for _ in range(n):
@@ -122,7 +122,7 @@ def run(ctx):
                               detail="a structurally valid document (datamodel %s) is reported with fatal issues or syntax-error warnings: %s\nchart: %s" % (dm, a[:200], charts.sexpr(d)[:600]))
     ctx.add_suite("validate-completeness", **st3)
     # ---- (d) arbitrary well-formed XML from SCXML vocabulary: validate() must return
-    soups = [soup(rng) for _ in range(1500 if quick else 50000)]
+    soups = [soup(rng) for _ in range(1500 if quick else 20000)]
     lines = ["v\t-\t-\t" + hexs(s) for s in soups]
     parts = list(chunks(lines, len(lines) // 16 + 1))
     def work(part):
